@@ -27,10 +27,13 @@ from seed_confirm import RELATED  # noqa: E402
 
 
 def one(sid):
-    d = VERIF / "seeded" / sid
-    pid = re.match(r"C\d+", sid).group(0)
+    d = VERIF / DIR / sid
+    if CHECKS:
+        pid, checks = sid, CHECKS
+    else:
+        pid = re.match(r"C\d+", sid).group(0)
+        checks = RELATED.get(pid, [pid])
     meta = json.load(open(d / "meta.json")) if (d / "meta.json").exists() else {"seeded_id": sid, "property": pid}
-    checks = RELATED.get(pid, [pid])
     wt = pathlib.Path(tempfile.mkdtemp(prefix=f"lspverif-pseed-{sid}-"))
     shutil.rmtree(wt)
     results = {}
@@ -86,11 +89,21 @@ def one(sid):
 
 
 CONFIRM = False
+DIR = "seeded"
+CHECKS = None
 
 
 def main():
-    global CONFIRM
+    global CONFIRM, DIR, CHECKS
     args = sys.argv[1:]
+    if "--dir" in args:      # e.g. --dir harmless : behaviour-preserving refactorings (a check that exits non-zero there is a false alarm)
+        i = args.index("--dir")
+        DIR = args[i + 1]
+        del args[i:i + 2]
+    if "--checks" in args:
+        i = args.index("--checks")
+        CHECKS = args[i + 1].split(",")
+        del args[i:i + 2]
     if "--confirm" in args:
         CONFIRM = True
         args.remove("--confirm")
